@@ -28,8 +28,8 @@ def SCHEDULE(schedule, start=None, count=10, end=None):
       daily: 07:30, 21:00             -- Twice a day at specified times.
       2-day: 12am, 4pm, +1d 8am       -- Three times every two days, evenly spaced.
       hourly: :15, :45                -- 15 minutes before and after each hour.
-      4-hour: :00, 1:20, 2:40         -- Three times every 4 hours, evenly spaced.
-      10-minute: +0s                  -- Every 10 minutes on the minute.
+      4-hour: :00, +1H :20, +2H :40   -- Three times every 4 hours, evenly spaced.
+      10-minute: +0S                  -- Every 10 minutes on the minute.
 
   INTERVAL must be either of the form `N-unit` where `N` is a number and `unit` is one of `year`,
   `month`, `week`, `day`, `hour`; or one of the aliases: `annual`, `monthly`, `weekly`, `daily`,
